@@ -119,6 +119,13 @@ def foreign_signature_events(ctx, blobs):
             # without any creation time the packet is not well-formed; force one
             pkt, hin = build.sig_packet(fk, 0x00, 'sha256', hashed, [], build.subject_octets(0x00, doc=doc), created=1262305000, issuer_in=issuer_in)
         ev.append(record_foreign(ctx, blobs, pub, pkt, hin, doc, -1, False, 'multi-%d' % k, None, kept, copies))
+    # hashed areas of several thousand octets (a long notation value, many attested digests) that ALSO carry things the typed classes would
+    # normalise: whatever the size of the area, it is hashed and written back as received
+    for size in (3000, 4090, 4100, 6000, 20000):
+        big = build.subpacket(20, bytes([0x80, 0, 0, 0]) + struct.pack('>HH', 8, size) + b'big@note' + bytes((i * 7) % 251 for i in range(size)))
+        extras = [build.subpacket(27, b'\x43'), build.subpacket(7, b'\x02'), build.subpacket(26, 'https://example.org/\xfcn\xef'.encode('utf-8')), build.subpacket(100, b'private')]
+        pkt, hin = build.sig_packet(fk, 0x00, 'sha256', [big] + extras, [], build.subject_octets(0x00, doc=doc), created=1262305000)
+        ev.append(record_foreign(ctx, blobs, pub, pkt, hin, doc, 20, False, 'large-area-%d' % size, None, kept, copies))
     ev += copies
     ev += key_carried_events(ctx, blobs)
     return ev, kept, pub, kblob, fk, doc
